@@ -492,7 +492,7 @@ def twin_design(rng, forced=None):
         ctor(lane, iw, ow)
     d = dict(hw=hw, top=top, inputs=inputs, outputs=outputs, kind=f'twin:{blk}')
     d['desc'] = dict(block=blk, variants=[list(v) for v in variants])
-    d['nondet_div'] = False
+    d['nondet_div'] = blk in ('Div', 'Mod', 'SignedDiv')      # division / modulo by zero is excluded by the property (both lanes)
     return d
 
 
